@@ -48,7 +48,30 @@ func (c *Config) verify() error {
 		return err
 	}
 
+	// Combinations across sections: each of these starts fine on its own and fails together.
+	webserverRuns := !(c.Webserver.ApiDisabled.pending() && c.Webserver.DashboardDisabled.pending())
+	if webserverRuns && listenAddressesCollide(c.Proxy.Listen.pending(), c.Webserver.Listen.pending()) {
+		return fmt.Errorf("proxy.listen and webserver.listen name the same address and port (%s, %s)", c.Proxy.Listen.pending(), c.Webserver.Listen.pending())
+	}
+
 	return nil
+}
+
+// Whether two listen addresses (already verified to be host:port) cannot both be bound: the same
+// port (0 stands for any free one and never collides) on the same host, or on all of them.
+func listenAddressesCollide(a, b string) bool {
+	hostA, portA, errA := net.SplitHostPort(a)
+	hostB, portB, errB := net.SplitHostPort(b)
+	if errA != nil || errB != nil {
+		return false
+	}
+	numA, errA := net.LookupPort("tcp", portA)
+	numB, errB := net.LookupPort("tcp", portB)
+	if errA != nil || errB != nil || numA != numB || numA == 0 {
+		return false
+	}
+	everywhere := func(h string) bool { return h == "" || h == "0.0.0.0" || h == "::" }
+	return hostA == hostB || everywhere(hostA) || everywhere(hostB)
 }
 
 // A separate configuration holding what is stored now (command-line overwrites left out) with an
